@@ -227,6 +227,14 @@ def structural_models(draw, min_rx=1, max_rx=5, types=ref.PROP_TYPES, delay_prob
 # finite-state networks for master-equation comparisons: every reaction has #products <= #reactants, so the total
 # molecule count never grows; non-mass-action rates vanish when a (multiplicity-1) reactant is absent.
 def finite_reaction(b, species, types=("massaction", "hill", "general"), safe=False):
+    rx = _finite_reaction(b, species, types, safe)
+    if rx["type"] == "massaction" and len(rx["r"]) >= 3:
+        # the order in which a reactant list names its species is immaterial (A + B + A is 2A + B)
+        rx["r"] = list(b.draw(st.permutations(rx["r"])))
+    return rx
+
+
+def _finite_reaction(b, species, types=("massaction", "hill", "general"), safe=False):
     draw = b.draw
     S = species
 
